@@ -259,6 +259,36 @@ func (w *c16World) removePod(p *corev1.Pod) {
 	w.dirty()
 }
 
+// recreatePod replaces the pod by a new one with the same namespace/name, owner and annotations but a new UID
+// (what a StatefulSet controller does after its pod has been deleted).
+func (w *c16World) recreatePod(old *corev1.Pod, node string, ready bool) *corev1.Pod {
+	w.removePod(old)
+	w.podSeq++
+	p := &corev1.Pod{
+		ObjectMeta: metav1.ObjectMeta{
+			Namespace: old.Namespace, Name: old.Name, UID: types.UID(fmt.Sprintf("uid-%s-r%d", old.Name, w.podSeq)),
+			CreationTimestamp: metav1.Time{Time: c16Base.Add(time.Duration(w.podSeq) * time.Minute)},
+			Annotations:       map[string]string{},
+			OwnerReferences:   old.OwnerReferences,
+		},
+		Spec:   corev1.PodSpec{NodeName: node, SchedulerName: old.Spec.SchedulerName, Priority: old.Spec.Priority},
+		Status: corev1.PodStatus{Phase: corev1.PodRunning, QOSClass: corev1.PodQOSBurstable},
+	}
+	for k, v := range old.Annotations {
+		p.Annotations[k] = v
+	}
+	st := corev1.ConditionFalse
+	if ready {
+		st = corev1.ConditionTrue
+	}
+	p.Status.Conditions = []corev1.PodCondition{{Type: corev1.PodReady, Status: st}}
+	if err := w.c.Create(context.TODO(), p); err != nil {
+		panic(err)
+	}
+	w.dirty()
+	return p
+}
+
 // newJob creates a PodMigrationJob for the pod. withUID=false: spec.podRef carries only namespace and name, as in a
 // hand-written job (the controller fills in the UID when the job turns Running).
 func (w *c16World) newJob(pod *corev1.Pod, tsOffset int, withUID bool) *v1alpha1.PodMigrationJob {
@@ -626,6 +656,8 @@ type c16Opts struct {
 	// evictAnnotated: some pods carry the override annotation descheduler.alpha.kubernetes.io/evict (their jobs pass
 	// every filter by design) and the descheduler asks again and again to evict them.
 	evictAnnotated bool
+	// recreate: the pod of a waiting job is deleted and re-created under the same name with a new UID (StatefulSet).
+	recreate bool
 }
 
 // the override annotation, spelled out here on purpose (not taken from the code under test)
@@ -659,7 +691,7 @@ func TestVerifC16ArbitrationEvents(t *testing.T) {
 	rapid.Check(t, func(t *rapid.T) {
 		c := rec.Begin()
 		defer c.End()
-		c16ArbitrationCase(t, c, handle, c16Opts{events: true, evictAnnotated: true})
+		c16ArbitrationCase(t, c, handle, c16Opts{events: true, evictAnnotated: true, recreate: true})
 	})
 }
 
@@ -698,6 +730,8 @@ func c16ArbitrationCase(t *rapid.T, c *vk.Case, handle framework.Handle, opt c16
 		sawTerminatingReady, restarts, sawStalePassed, sawNoUID, sawFilterDupNoUID := false, 0, false, false, false
 		sawForcedPod, sawForcedDup, sawForcedAdmitted, sawPassedEvent, sawRoundAfterPassedEvent := false, false, false, false, false
 		passedEventPending := map[types.UID]bool{} // jobs whose "passed" Update event (phase still empty) has been delivered
+		sawRecreated, sawRoundWithReplacedPod := false, false
+		replacedFor := map[types.UID]bool{} // waiting jobs (podRef with UID) whose pod has been re-created under the same name
 		genPod := func(wl *c16Workload, ns string) *corev1.Pod {
 			node := rapid.SampledFrom(w.nodes).Draw(t, "podNode")
 			ready := rapid.IntRange(0, 4).Draw(t, "podReady") > 0
@@ -893,6 +927,11 @@ func c16ArbitrationCase(t *rapid.T, c *vk.Case, handle framework.Handle, opt c16
 					if pj := jobsBefore[puid]; pj != nil && c16Phase(pj) == v1alpha1.PodMigrationJobPending && c16Passed(pj) {
 						sawRoundAfterPassedEvent = true
 					}
+				}
+			}
+			for _, uid := range waiting {
+				if j := jobsBefore[uid]; j != nil && replacedFor[uid] && !c16Active(j) && c16Live(j) && pods[j.Spec.PodRef.Namespace+"/"+j.Spec.PodRef.Name] != nil {
+					sawRoundWithReplacedPod = true
 				}
 			}
 			// admissions forced by the override annotation in this round, per scope: they come on top of the limits by design
@@ -1290,6 +1329,32 @@ func c16ArbitrationCase(t *rapid.T, c *vk.Case, handle framework.Handle, opt c16
 				}
 			}
 		}
+		if opt.recreate {
+			actions["podRecreatedUnderSameName"] = func(t *rapid.T) {
+				if dead {
+					return
+				}
+				// pods of jobs that are still waiting for arbitration
+				var cands []*corev1.Pod
+				var jobs []*v1alpha1.PodMigrationJob
+				for _, p := range w.pods() {
+					if j := w.liveJobOf(p); j != nil && !c16Active(j) && p.DeletionTimestamp == nil {
+						cands = append(cands, p)
+						jobs = append(jobs, j)
+					}
+				}
+				if len(cands) == 0 {
+					t.Skip("no pod with a waiting job")
+				}
+				i := rapid.IntRange(0, len(cands)-1).Draw(t, "pod")
+				np := w.recreatePod(cands[i], rapid.SampledFrom(w.nodes).Draw(t, "newNode"), rapid.IntRange(0, 3).Draw(t, "newReady") > 0)
+				sawRecreated = true
+				if jobs[i].Spec.PodRef.UID != "" {
+					replacedFor[jobs[i].UID] = true
+				}
+				w.logf("pod %s re-created under the same name (uid %s -> %s, node=%s ready=%v), waiting job %s (podRef.uid=%q)", c16Key(np), cands[i].UID, np.UID, np.Spec.NodeName, c16Ready(np), jobs[i].Name, jobs[i].Spec.PodRef.UID)
+			}
+		}
 		t.Repeat(actions)
 		if !dead {
 			round(t) // every case ends with a round
@@ -1308,6 +1373,8 @@ func c16ArbitrationCase(t *rapid.T, c *vk.Case, handle framework.Handle, opt c16
 		c.ClassIf(restarts > 0, "arbitrator-restarted")
 		c.ClassIf(sawStalePassed, "round-with-replayed-passed-job")
 		c.ClassIf(sawNoUID, "job-with-podref-without-uid")
+		c.ClassIf(sawRecreated, "pod-of-waiting-job-recreated-under-same-name")
+		c.ClassIf(sawRoundWithReplacedPod, "round-with-waiting-job-whose-podref-uid-is-of-the-old-pod")
 		c.ClassIf(sawForcedPod, "pod-with-evict-override-annotation")
 		c.ClassIf(sawForcedDup, "filter-asked-for-annotated-pod-with-live-job")
 		c.ClassIf(sawForcedAdmitted, "job-admitted-through-override-annotation")
